@@ -51,15 +51,24 @@ fn marker(dir: &Path, t: usize) -> PathBuf {
 /// lets task `t` finish: the writer side of its FIFO is opened (blocks until `cat` has it open)
 /// and closed again
 fn release(dir: &Path, t: usize) {
+    // non-blocking open with a deadline: without a reader the open fails (ENXIO) instead of blocking for ever
+    use std::os::unix::fs::OpenOptionsExt;
+    const O_NONBLOCK: i32 = 0o4000;
     let p = fifo(dir, t);
-    if let Ok(f) = std::fs::OpenOptions::new().write(true).open(p) {
-        drop(f);
+    for _ in 0..1000 {
+        match std::fs::OpenOptions::new().write(true).custom_flags(O_NONBLOCK).open(&p) {
+            Ok(f) => {
+                drop(f);
+                return;
+            }
+            Err(_) => std::thread::sleep(std::time::Duration::from_millis(5)),
+        }
     }
 }
 
 fn wait_marker(dir: &Path, t: usize) {
     let m = marker(dir, t);
-    for _ in 0..6000 {
+    for _ in 0..1600 {
         if m.exists() {
             return;
         }
@@ -156,7 +165,7 @@ async fn run_case(k: usize, c: &[String]) -> Vec<String> {
             "P" => {
                 // poll until no job whose task has been released is left (bounded)
                 let mut removed: Vec<String> = vec![];
-                for _ in 0..4000 {
+                for _ in 0..1200 {
                     match shell.jobs_mut().poll() {
                         Ok(res) => {
                             for (j, _) in &res {
